@@ -1,4 +1,5 @@
 import NunavutVerif.Lemmas.Namespace
+import NunavutVerif.Lemmas.NamespaceGlue
 /-!
 # C11 — types map one-to-one onto files in the output tree; the namespace model is a tree
 
@@ -375,6 +376,235 @@ theorem C11_support_file_inside_outdir (cfg : Cfg) (ts : List Ty) (ks : List Key
     · exact idseg_safe (hsubs s hs)
     · rw [List.mem_singleton.1 hs]; exact file_safe hstem hext
 
+/-! ## 7. the path glue: from the command line / the builder API to base path, extension and stem
+
+`Model/NamespaceGlue.lean` transcribes `_make_parser` (`--outdir`, `--output-extension` with `extension_type`,
+`--namespace-output-stem`), `ArgparseRunner._create_language_context`, the builder's overrides
+(`if value is not None`), `create()` (`deep_update` of the language section) and the two `get_config_value` calls.
+`None` (option absent) and the empty string are different inputs everywhere below. -/
+
+/-- T6a: what the three options arrive as.  A given `-e` wins over properties.yaml and every `--configuration`
+file and arrives as `extension_type(raw)` — the *empty* extension included; an absent one leaves the section's
+value (`KeyError` if there is none).  The same for the stem (default `_` if the section has none); the output
+directory is the spelling itself, `nunavut_out` if absent.  `strop`/`enable` are the language's. -/
+theorem C11_cli_arguments_reach_the_namespace (strop : Str → Str) (enable : Bool) (lang : Section)
+    (files : List Section) (a : CliArgs) :
+    cfgOfCli strop enable lang files a =
+      (match a.outputExtension with
+        | some raw => (.ok (extensionType raw) : Except Err Str)
+        | none => getConfigValue (files.foldl deepUpdate lang) keyExtension none).map
+      (fun ext => (⟨strop, enable, ext,
+          (match a.namespaceOutputStem with
+            | some s => s
+            | none => sectionStem (files.foldl deepUpdate lang)),
+          a.outdir.getD defaultOutdir⟩ : Cfg)) := by
+  unfold cfgOfCli cfgOfSection runnerOverrides parsedExtension parsedOutdir
+  rw [getConfigValue_effective_ext, getConfigValue_effective_stem]
+  cases a.outputExtension with
+  | some raw => rfl
+  | none =>
+    simp only [Option.map_none]
+    cases getConfigValue (files.foldl deepUpdate lang) keyExtension none <;> rfl
+
+/-- T6a for the API route (`set_target_language_extension(ext)`,
+`set_target_language_configuration_override(WKCV_NAMESPACE_FILE_STEM, stem)`): the same without `extension_type`. -/
+theorem C11_api_overrides_reach_the_namespace (strop : Str → Str) (enable : Bool) (lang : Section)
+    (files : List Section) (ext stem : Option Str) (outDir : Str) :
+    cfgOfApi strop enable lang files ext stem outDir =
+      (match ext with
+        | some e => (.ok e : Except Err Str)
+        | none => getConfigValue (files.foldl deepUpdate lang) keyExtension none).map
+      (fun e => (⟨strop, enable, e,
+          (match stem with
+            | some s => s
+            | none => sectionStem (files.foldl deepUpdate lang)),
+          outDir⟩ : Cfg)) := by
+  unfold cfgOfApi cfgOfSection
+  rw [getConfigValue_effective_ext, getConfigValue_effective_stem]
+  cases ext with
+  | some e => rfl
+  | none => cases getConfigValue (files.foldl deepUpdate lang) keyExtension none <;> rfl
+
+/-- Which `-e` arguments `with_suffix` accepts after `extension_type`: all but `.` and those with a `/`
+(the empty one, `h`, `.h`, `.tar.gz`, `..x` …). -/
+theorem C11_cli_extension_accepted_iff (raw : Str) :
+    validSuffix (extensionType raw) = true ↔ raw ≠ ['.'] ∧ '/' ∉ raw :=
+  validSuffix_extensionType raw
+
+/-- T1 for **every** extension string (no hypothesis on `cfg.ext`): the type's file is
+`outDir / strop(c₁)/…/strop(cₙ) / (strop(Short_M_m) ++ ext)` — `ext` appended as it is, empty or multi-dot — or
+`build_namespace_tree` raises `ValueError` (exactly when `with_suffix` rejects the suffix). -/
+theorem C11_type_path_for_every_extension (cfg : Cfg) (t : Ty) (hc : ∀ c ∈ t.ns, IdSeg (estrop cfg c))
+    (hn : IdSeg (estrop cfg (shortVer t))) :
+    outputPath cfg t =
+      if validSuffix cfg.ext then
+        .ok (basePath cfg ++ (t.ns.map (estrop cfg) ++ [estrop cfg (shortVer t) ++ cfg.ext]))
+      else .error .badSuffix :=
+  outputPath_every_ext cfg t hc hn
+
+/-- T1 for namespace files, every extension string and every one-part stem: `… / (stem ++ ext)` for a stem
+without a dot; pathlib replaces the last suffix of a dotted stem (`stemOf`: `x.y` + `.h` = `x.h`). -/
+theorem C11_namespace_path_for_every_extension (cfg : Cfg) (k : Key) (hk : ∀ c ∈ k, IdSeg (cfg.strop c))
+    (h1 : cfg.stem ≠ []) (h2 : '/' ∉ cfg.stem) (h3 : cfg.stem ≠ ['.']) :
+    nsOutputPath cfg k =
+      (if validSuffix cfg.ext then .ok (basePath cfg ++ k.map cfg.strop ++ [stemOf cfg.stem ++ cfg.ext])
+       else .error .badSuffix) ∧
+    ('.' ∉ cfg.stem → stemOf cfg.stem = cfg.stem) :=
+  ⟨nsOutputPath_every_ext cfg k hk h1 h2 h3, stemOf_nodot cfg.stem⟩
+
+/-- End to end: `nnvg -O outdir -e raw …` puts the type `t` at
+`PurePath(outdir) / strop(ns)… / (strop(Short_M_m) ++ extension_type(raw))` for every accepted `raw`, the empty
+string included, whatever properties.yaml and the configuration files say; and raises for the others. -/
+theorem C11_cli_type_path_formula (strop : Str → Str) (enable : Bool) (lang : Section) (files : List Section)
+    (a : CliArgs) (raw : Str) (ha : a.outputExtension = some raw) (t : Ty)
+    (hc : ∀ c ∈ t.ns, IdSeg (if enable then strop c else c))
+    (hn : IdSeg (if enable then strop (shortVer t) else shortVer t)) :
+    ∃ cfg, cfgOfCli strop enable lang files a = .ok cfg ∧
+      outputPath cfg t =
+        if raw ≠ ['.'] ∧ '/' ∉ raw then
+          .ok (pjoin [] (a.outdir.getD defaultOutdir) ++
+            (t.ns.map (fun c => if enable then strop c else c) ++
+              [(if enable then strop (shortVer t) else shortVer t) ++ extensionType raw]))
+        else .error .badSuffix := by
+  let cfg0 : Cfg := ⟨strop, enable, extensionType raw,
+    (match a.namespaceOutputStem with
+      | some s => s
+      | none => sectionStem (files.foldl deepUpdate lang)), a.outdir.getD defaultOutdir⟩
+  refine ⟨cfg0, by rw [C11_cli_arguments_reach_the_namespace, ha]; rfl, ?_⟩
+  rw [outputPath_every_ext cfg0 t hc hn]
+  by_cases hv : raw ≠ ['.'] ∧ '/' ∉ raw
+  · rw [if_pos hv, if_pos ((validSuffix_extensionType raw).2 hv)]; rfl
+  · rw [if_neg hv, if_neg (fun h => hv ((validSuffix_extensionType raw).1 h))]
+
+/-- T2 under every override: whatever the extension is (the hypothesis `ValidExt` of
+`C11_distinct_types_distinct_files` is not needed: two types that *have* files have different files), in
+particular for every configuration `cfgOfCli` / `cfgOfApi` arrive at. -/
+theorem C11_distinct_types_distinct_files_for_every_extension (cfg : Cfg) (t u : Ty)
+    (htc : ∀ c ∈ t.ns, IdSeg (estrop cfg c)) (htn : IdSeg (estrop cfg (shortVer t)))
+    (huc : ∀ c ∈ u.ns, IdSeg (estrop cfg c)) (hun : IdSeg (estrop cfg (shortVer u)))
+    (hcomps : ∀ a ∈ t.ns, ∀ b ∈ u.ns, estrop cfg a = estrop cfg b → a = b)
+    (hname : estrop cfg (shortVer t) = estrop cfg (shortVer u) → shortVer t = shortVer u)
+    (p : Path) (ht : outputPath cfg t = .ok p) (hu : outputPath cfg u = .ok p) : t = u := by
+  have hv : ValidExt cfg.ext := by
+    by_cases hv : validSuffix cfg.ext = true
+    · exact hv
+    · rw [outputPath_every_ext cfg t htc htn, if_neg hv] at ht; cases ht
+  exact C11_distinct_types_distinct_files cfg t u ⟨htc, htn, hv⟩ ⟨huc, hun, hv⟩ hcomps hname (ht.trans hu.symm)
+
+/-! ## 8. where the files are: operations, `..` and symbolic links
+
+Containment so far is lexical (`Inside`).  `Fs` adds the two things that decide where the operating system
+puts a path: the working directory and the symbolic links; `resolve` is the kernel's walk (`os.path.realpath`). -/
+
+/-- Handing the spelling of the output directory to pathlib (which drops `.`, empty pieces and trailing
+slashes but keeps every `..`) does not change the directory it names. -/
+theorem C11_outdir_spelling_names_the_same_directory (fs : Fs) (cfg : Cfg) :
+    resolveStr fs cfg.outDir = resolve fs (basePath cfg) :=
+  resolveStr_eq_resolve_pjoin fs cfg.outDir
+
+/-- T3 over the resolved output directory: the file of a type is, physically, `realpath(outDir)` followed by
+the namespace folders and the file name — for every spelling of `outDir` (through links, with `..`), provided
+no symbolic link lies *below* the resolved output directory. -/
+theorem C11_type_file_below_resolved_outdir (fs : Fs) (cfg : Cfg) (t : Ty) (h : NamesOk cfg t)
+    (hl : NoLinkBelow fs (resolve fs (basePath cfg))) :
+    ∃ rel, outputPath cfg t = .ok (basePath cfg ++ rel) ∧ rel ≠ [] ∧ (∀ s ∈ rel, SafeSeg s) ∧
+      resolve fs (basePath cfg ++ rel) = resolveStr fs cfg.outDir ++ rel := by
+  refine ⟨_, outputPath_formula cfg t h, by simp, inside_to_safe_type cfg t h, ?_⟩
+  rw [C11_outdir_spelling_names_the_same_directory]
+  exact resolve_insideSafe fs _ _ (by simp) (inside_to_safe_type cfg t h) hl
+
+/-- Anything that lies below `outDir` by safe segments is put below the resolved `outDir`. -/
+theorem C11_inside_is_below_resolved_outdir (fs : Fs) (cfg : Cfg) (p : Path)
+    (h : InsideSafe (basePath cfg) p) (hl : NoLinkBelow fs (resolve fs (basePath cfg))) :
+    ∃ rel, rel ≠ [] ∧ p = basePath cfg ++ rel ∧ resolve fs p = resolveStr fs cfg.outDir ++ rel := by
+  obtain ⟨rel, rfl, hne, hs⟩ := h
+  exact ⟨rel, hne, rfl, by
+    rw [C11_outdir_spelling_names_the_same_directory]; exact resolve_insideSafe fs _ _ hne hs hl⟩
+
+section Ops
+variable (cfg : Cfg) (ts : List Ty) (r : Str) (ks : List Key)
+variable (hne : ts ≠ []) (hroot : OneRoot r ts) (hks : ∀ k, k ∈ ks ↔ k ∈ (loop1 cfg ts).idx)
+include hne hroot hks
+
+/-- "Nothing is created outside the output directory", on the operations: every file a (non-dry) run of the
+type generator and the support generator opens for writing, and every directory its `mkdir(parents=True)`
+calls may create, lies below `outDir` by safe segments — or is `outDir` itself or an ancestor of it (a prefix:
+`mkdir -p` of a missing output directory).  A run aborted by a template error performs a prefix of these
+operations.  In particular no scratch location (a temporary directory) is ever written. -/
+theorem C11_every_created_path_inside_outdir
+    (hnames : ∀ t ∈ ts, NamesOk cfg t) (hcomps : ∀ t ∈ ts, ∀ c ∈ t.ns, IdSeg (cfg.strop c))
+    (hstem : IdSeg cfg.stem) (nsTypes : Bool) (subs names : List Str) (hsubs : ∀ s ∈ subs, IdSeg s)
+    (hres : ∀ n ∈ names, ∃ stem suf, n = stem ++ '.' :: suf ∧ IdSeg stem ∧ suf ≠ [] ∧ '.' ∉ suf ∧ '/' ∉ suf) :
+    ∀ p ∈ createdPaths cfg (buildWith cfg ts ks) nsTypes subs names,
+      InsideSafe (basePath cfg) p ∨ p <+: basePath cfg := by
+  have b := built_buildWith cfg ts r ks hne hroot hks
+  obtain ⟨t0, ht0⟩ := List.exists_mem_of_ne_nil ts hne
+  have hext : ValidExt cfg.ext := (hnames t0 ht0).ext
+  have hst := buildWith_store cfg ts r ks hne hroot hks
+  -- type files
+  have hty : ∀ e : Ty × PathR, e.1 ∈ ts → e.2 = outputPath cfg e.1 → ∀ p, e.2 = .ok p → InsideSafe (basePath cfg) p := by
+    intro e h1 h2 p hp
+    rw [h2, outputPath_formula cfg e.1 (hnames e.1 h1)] at hp
+    cases hp
+    exact ⟨_, rfl, by simp, inside_to_safe_type cfg e.1 (hnames e.1 h1)⟩
+  -- namespace files
+  have hnsf : ∀ k ∈ allNamespaces (buildWith cfg ts ks), ∀ p, pathOf cfg (buildWith cfg ts ks).store k = .ok p →
+      InsideSafe (basePath cfg) p := by
+    intro k hk p hp
+    have hkns := ((C11_namespaces_exactly_once cfg ts r ks hne hroot hks).2 k).1 hk
+    have hkc : ∀ c ∈ k, IdSeg (cfg.strop c) := by
+      intro c hc
+      obtain ⟨_, n, hn, hpre⟩ := hkns
+      obtain ⟨t, ht, rfl⟩ := List.mem_map.1 hn
+      exact hcomps t ht c (hpre.subset hc)
+    rw [hst, pathOf_built, nsOutputPath_formula cfg k hkc hstem hext] at hp
+    cases hp
+    refine ⟨k.map cfg.strop ++ [cfg.stem ++ cfg.ext], by simp, by simp, ?_⟩
+    intro s hs
+    rcases List.mem_append.1 hs with hs | hs
+    · obtain ⟨c, hc, rfl⟩ := List.mem_map.1 hs
+      exact idseg_safeSeg (hkc c hc)
+    · rw [List.mem_singleton.1 hs]; exact file_safeSeg hstem hext
+  -- every written file
+  have hfiles : ∀ p, (.ok p : PathR) ∈ writtenFiles cfg (buildWith cfg ts ks) nsTypes subs names →
+      InsideSafe (basePath cfg) p := by
+    intro p hp
+    unfold writtenFiles at hp
+    rcases List.mem_append.1 hp with hp | hp
+    · cases nsTypes with
+      | true =>
+        simp only [if_true] at hp
+        obtain ⟨k, hk, hp⟩ := List.mem_flatMap.1 hp
+        rcases List.mem_cons.1 hp with hp | hp
+        · exact hnsf k hk p hp.symm
+        · obtain ⟨e, he, hep⟩ := List.mem_map.1 hp
+          obtain ⟨h1, _, h3⟩ := (b.types k e).1 he
+          exact hty e h1 h3 p hep
+      | false =>
+        simp only [Bool.false_eq_true, if_false] at hp
+        obtain ⟨e, he, hep⟩ := List.mem_map.1 hp
+        obtain ⟨h1, h3⟩ := ((C11_types_exactly_once cfg ts r ks hne hroot hks).2 e).1 he
+        exact hty e h1 h3 p hep
+    · obtain ⟨n, hn, hnp⟩ := List.mem_map.1 hp
+      obtain ⟨stem, suf, rfl, h1, h2, h3, h4⟩ := hres n hn
+      rw [(C11_support_file_inside_outdir cfg ts ks subs stem suf hsubs h1 h2 h3 h4 hext).1] at hnp
+      cases hnp
+      refine ⟨subs ++ [stem ++ cfg.ext], rfl, by simp, ?_⟩
+      intro s hs
+      rcases List.mem_append.1 hs with hs | hs
+      · exact idseg_safeSeg (hsubs s hs)
+      · rw [List.mem_singleton.1 hs]; exact file_safeSeg h1 hext
+  intro p hp
+  unfold createdPaths at hp
+  rcases List.mem_append.1 hp with hp | hp
+  · exact Or.inl (hfiles p ((mem_okPaths _ _).1 hp))
+  · obtain ⟨f, hf, hpf⟩ := List.mem_flatMap.1 hp
+    rcases mkdirChain_insideSafe _ f (hfiles f ((mem_okPaths _ _).1 hf)) p hpf with h | h
+    · exact Or.inr h
+    · exact Or.inl h
+
+end Ops
+
 /-! ## Non-vacuity and regression witnesses -/
 
 section Examples
@@ -424,6 +654,47 @@ the root namespace's own folder instead (its parent) would leave the output dire
 example : supportTarget cfgC (buildTree cfgC []) [s "nunavut", s "support"] (s "serialization.j2")
     = .ok [s "out", s "nunavut", s "support", s "serialization.h"] := by decide
 example : parentPath (nsFolder cfgC (buildTree cfgC []).root) = [] ∧ basePath cfgC = [s "out"] := by decide
+
+/-- The path glue.  An explicitly *empty* `-e` is an override like any other (extension-less headers) — not the
+absence of one: -/
+private def secC : Section := [(keyExtension, some (s ".h")), (keyStem, some (s "_namespace_"))]
+example : (cfgOfCli stropC true secC [] ⟨some (s "o"), some [], none⟩).toOption.map (fun c => (c.ext, c.stem, c.outDir))
+    = some ([], s "_namespace_", s "o") := by decide
+example : (cfgOfCli stropC true secC [] ⟨none, none, some []⟩).toOption.map (fun c => (c.ext, c.stem, c.outDir))
+    = some (s ".h", [], s "nunavut_out") := by decide
+example : (cfgOfCli stropC true secC [[(keyExtension, none)]] ⟨none, some (s "tar.gz"), some (s "x.y")⟩).toOption.map
+    (fun c => (c.ext, c.stem)) = some (s ".tar.gz", s "x.y") := by decide
+/-- a configuration file may null the extension; without an override the (empty) value of the file is used -/
+example : (cfgOfCli stropC true secC [[(keyExtension, none)]] ⟨none, none, none⟩).toOption.map (·.ext) = some [] := by
+  decide
+example : outputPath { cfgC with ext := [] } tD = .ok [s "out", s "vendor", s "a", s "b", s "c", s "Foo_1_2_10"] ∧
+    outputPath { cfgC with ext := s ".tar.gz" } tD
+      = .ok [s "out", s "vendor", s "a", s "b", s "c", s "Foo_1_2_10.tar.gz"] ∧
+    outputPath { cfgC with ext := s "." } tD = .error .badSuffix := by decide
+example : nsOutputPath { cfgC with ext := [], stem := s "x.y" } [s "vendor"] = .ok [s "out", s "vendor", s "x"] := by
+  decide
+/-- `cwd = /w`, `/w/link -> /real/deep`: the output directory spelled `link/../out` is `/real/out`; cancelling
+`link/..` lexically (`os.path.normpath`) would name `/w/out`, another directory — the spelling has to reach the
+operating system as it is. -/
+private def fsL : Fs := ⟨[s "/", s "w"], fun p => if p = [s "/", s "w", s "link"] then some [s "/", s "real", s "deep"] else none⟩
+example : resolveStr fsL (s "link/../out/") = [s "/", s "real", s "out"] ∧
+    resolveStr fsL (s "out") = [s "/", s "w", s "out"] := by decide
+example : resolve fsL (basePath { cfgC with outDir := s "link/..//out/." }) = [s "/", s "real", s "out"] := by decide
+example : NoLinkBelow fsL [s "/", s "real", s "out"] := by
+  intro rel _
+  simp only [fsL]
+  rw [if_neg]
+  intro e
+  have h2 : ([s "/", s "real", s "out"] ++ rel)[1]? = ([s "/", s "w", s "link"] : Path)[1]? := by rw [e]
+  simp only [List.cons_append, List.getElem?_cons_succ, List.getElem?_cons_zero, Option.some.injEq] at h2
+  exact absurd h2 (by decide)
+/-- the creating operations of a run with namespace files and one support resource -/
+example : createdPaths cfgC (buildTree cfgC [tA]) true [s "nunavut", s "support"] [s "serialization.j2"] =
+    [[s "out", s "vendor", s "_.h"], [s "out", s "vendor", s "_register", s "_.h"],
+     [s "out", s "vendor", s "_register", s "A_1_0.h"], [s "out", s "nunavut", s "support", s "serialization.h"],
+     [s "out"], [s "out", s "vendor"], [s "out"], [s "out", s "vendor"], [s "out", s "vendor", s "_register"],
+     [s "out"], [s "out", s "vendor"], [s "out", s "vendor", s "_register"],
+     [s "out"], [s "out", s "nunavut"], [s "out", s "nunavut", s "support"]] := by decide
 end Examples
 
 end NunavutVerif.Namespace
